@@ -495,10 +495,19 @@ Plan Gen(uint64_t seed, Tier tier)
     default: h0 = rng.range(0, base - 1); break;
     }
     p.knobs["h0"] = h0;
-    p.knobs["hdr_limit"] = rng.chance(1, 12) ? rng.range(0, base - 1) : 100000; // headers the target knows (rarely: not up to the base)
-    p.knobs["fork_known"] = rng.chance(1, 5);
+    p.knobs["hdr_limit"] = rng.chance(1, 25) ? rng.range(0, base - 1) : 100000; // headers the target knows (rarely: not up to the base)
+    p.knobs["fork_known"] = rng.chance(1, 4);
     p.knobs["fork_first"] = rng.chance(1, 2);
     p.knobs["fork_len"] = rng.chance(1, 2) ? rng.range(base + 13, base + 30) : rng.range(20, base - 1);
+    if (p.knobs["fork_known"] && rng.chance(1, 2)) {
+        // the target's ACTIVE chain is the fork (it only knows the headers of the snapshot's chain); half of the time it sits at or above the
+        // base height but below the best header, so that only the work comparison stands between the snapshot and activation
+        p.knobs["fork_active"] = 1;
+        int64_t extra = p.knobs["extra"];
+        int64_t fl = (int64_t)rng.pick({5, 3, 2}) == 0 ? base + rng.range(0, std::max<int64_t>(0, extra - 1)) : rng.chance(3, 5) ? rng.range(20, base - 1) : rng.range(base + 13, base + 30);
+        p.knobs["fork_len"] = fl;
+        p.knobs["h0"] = rng.chance(2, 3) ? fl : rng.range(0, fl);
+    }
     p.knobs["t_on_disk"] = rng.chance(1, 4);
     p.knobs["coins_cache_kb"] = rng.chance(1, 2) ? rng.range(8, 64) : 8192;
     // swarm: mutation and stream weights of this run
@@ -650,6 +659,8 @@ struct Sim {
     std::vector<Field> fields[3];
     std::vector<std::pair<size_t, size_t>> rec[3]; //!< byte range of each coin record
     CoinSet all_coins;       //!< every coin the primary chain creates (all coinbase outputs), by model
+    CoinSet all_coins_f;     //!< the same for the fork chain
+    bool t_fork_active{false}; //!< the target connects the fork's blocks (its active chain), the primary chain is headers-only
     CoinSet committed;       //!< the model's UTXO set at the base block
     CoinSet fork_committed;  //!< the same for the fork chain's assumeutxo block, if it has one
     uint256 fork_au_hash;
@@ -805,7 +816,7 @@ struct Sim {
         int flen = (int)std::clamp<int64_t>(ctx.knob("fork_len", 30), 1, 260);
         if (ctx.knob("fork_known", 0)) {
             auto params = CChainParams::RegTest({});
-            if (chain == 0 && flen > base) flen = 200 + flen % 5; // long fork of the 110-chain: the 200-chain itself (contains an assumeutxo block)
+            if (chain == 0 && flen >= base + 13) flen = 200 + flen % 5; // long fork of the 110-chain: the 200-chain itself (contains an assumeutxo block)
             uint256 prev = params->GenesisBlock().GetHash();
             CoinSet fc;
             for (int h = 1; h <= flen; ++h) {
@@ -813,6 +824,7 @@ struct Sim {
                 prev = b->GetHash();
                 F.push_back(b);
                 if (chain == 0 && h <= 200) AddModelCoins(fc, *b, h);
+                AddModelCoins(all_coins_f, *b, h);
             }
             if (chain == 0 && flen >= 200) {
                 if (F[199]->GetHash() != U256(kCommit[1].blockhash)) SimFail("chain-not-reproduced", "fork block 200 is " + F[199]->GetHash().ToString());
@@ -843,9 +855,10 @@ struct Sim {
         const int len = (int)P.size();
         t_hdr = clean ? len : (int)std::clamp<int64_t>(ctx.knob("hdr_limit", 100000), 0, len);
         t_fork = !clean && !F.empty();
+        t_fork_active = t_fork && ctx.knob("fork_active", 0) != 0;
         auto give = [&](const std::vector<std::shared_ptr<const CBlock>>& c, int upto, int id) {
             std::vector<CBlockHeader> v;
-            for (int h = 1; h <= upto; ++h) { v.push_back(c[h - 1]->GetBlockHeader()); known[c[h - 1]->GetHash()] = {id, h}; }
+            for (int h = 1; h <= upto; ++h) { v.push_back(CBlockHeader{*c[h - 1]}); known[c[h - 1]->GetHash()] = {id, h}; }
             BlockValidationState st;
             if (!v.empty() && !T->ProcessHeaders(v, st)) SimFail("target-headers-rejected", st.ToString());
         };
@@ -853,15 +866,20 @@ struct Sim {
         give(P, t_hdr, 0);
         if (t_fork && !ctx.knob("fork_first", 0)) give(F, (int)F.size(), 1);
         t_blocks = 0;
-        Connect(std::min(h0, t_hdr));
+        Connect(t_fork_active ? h0 : std::min(h0, t_hdr));
     }
+    const std::vector<std::shared_ptr<const CBlock>>& ActiveBlocks() const { return t_fork_active ? F : P; }
+    const CoinSet& ActiveCoins() const { return t_fork_active ? all_coins_f : all_coins; }
     void Connect(int upto)
     {
-        upto = std::min(upto, (int)P.size());
+        const auto& A = ActiveBlocks();
+        upto = std::min(upto, (int)A.size());
         for (int h = t_blocks + 1; h <= upto; ++h) {
-            T->ProcessBlock(P[h - 1]);
-            known[P[h - 1]->GetHash()] = {0, h};
-            t_hdr = std::max(t_hdr, h);
+            T->ProcessBlock(A[h - 1]);
+            if (!t_fork_active) {
+                known[A[h - 1]->GetHash()] = {0, h};
+                t_hdr = std::max(t_hdr, h);
+            }
             t_blocks = h;
         }
         if (T->Fatal()) SimFail("target-fatal-error", T->notifications->fatal_errors.empty() ? T->notifications->flush_errors[0] : T->notifications->fatal_errors[0]);
@@ -906,9 +924,9 @@ struct Sim {
             for (auto& info : T->mempool->infoAll()) s.pool.push_back(info.tx->GetHash().ToUint256());
             std::sort(s.pool.begin(), s.pool.end());
         }
+        // top-level entries only (chainstate directories): an ordinary flush may legitimately create blocks/rev*.dat
         std::error_code ec;
         for (auto& e : std::filesystem::directory_iterator(T->opts.dir, ec)) s.dir.push_back(e.path().filename().string());
-        for (auto& e : std::filesystem::directory_iterator(T->opts.dir + "/blocks", ec)) s.dir.push_back("blocks/" + e.path().filename().string());
         std::sort(s.dir.begin(), s.dir.end());
         return s;
     }
@@ -940,7 +958,7 @@ struct Sim {
             LOCK(cs_main);
             Chainstate& a = T->cm().CurrentChainstate();
             h = a.m_chain.Height();
-            for (auto& [k, c] : all_coins) {
+            for (auto& [k, c] : ActiveCoins()) {
                 if ((int)c.height > h) continue;
                 const Coin& got = a.CoinsTip().AccessCoin(COutPoint(Txid::FromUint256(FromArr(k.first)), k.second));
                 bool spent_by_model = false; // mempool transactions do not spend from the chainstate
@@ -953,8 +971,8 @@ struct Sim {
         uint64_t n = 0;
         uint256 got = T->UtxoHash(&n);
         uint64_t want_n = 0;
-        for (auto& [k, c] : all_coins) want_n += (int)c.height <= h;
-        uint256 want = SetHash(all_coins, (uint32_t)h);
+        for (auto& [k, c] : ActiveCoins()) want_n += (int)c.height <= h;
+        uint256 want = SetHash(ActiveCoins(), (uint32_t)h);
         if (n != want_n || got != want) ctx.failf(cls, "%s: existing chainstate has %lu coins hash %s, the model's UTXO(%d) has %lu coins hash %s", where.c_str(), (unsigned long)n, got.ToString().c_str(), h, (unsigned long)want_n, want.ToString().c_str());
     }
 
@@ -1151,10 +1169,11 @@ struct Sim {
         Reason reason{R_SAME};
         std::string detail;
         bool conflict{false}, dup{false};
+        bool equal_work_other_tip{false}; //!< R_WORK because the base has exactly the work of an active tip on a competing chain
         uint64_t set_fp{0};
     };
     /** What the byte string that reaches the loader denotes, and whether the property statement forces a rejection. */
-    Verdict Judge(const Bytes& bytes, int smode, size_t fault_at, int active_height)
+    Verdict Judge(const Bytes& bytes, int smode, size_t fault_at, int active_height, const uint256& active_tip)
     {
         Verdict v;
         Bytes cut;
@@ -1182,7 +1201,11 @@ struct Sim {
         if (it == known.end()) { v.reason = R_UNKNOWN_HDR; return v; }
         const auto [cid, ch] = it->second;
         if (cid == 0 && MinMark() <= ch) { v.reason = R_INVALID_BASE; return v; }
-        if (ch <= active_height) { v.reason = R_WORK; return v; } // every regtest block carries the same work
+        if (ch <= active_height) { // every regtest block carries the same work
+            v.reason = R_WORK;
+            v.equal_work_other_tip = ch == active_height && claimed != active_tip;
+            return v;
+        }
         const CoinSet& want = cid == 0 ? committed : fork_committed;
         CoinSet s = ToSet(f, v.dup, v.conflict);
         v.set_fp = SetFp(s);
@@ -1305,7 +1328,7 @@ struct Sim {
         const bool in_memory = op.arg(A_FLAGS) & 1;
         const bool with_flush = op.arg(A_FLAGS) & 2;
         const int active = ActiveHeight();
-        const Verdict v = Judge(bytes, smode, fault_at, active);
+        const Verdict v = Judge(bytes, smode, fault_at, active, T->TipHash());
         const bool pristine = bytes == snap[0] && v.reason == R_SAME;
         const bool must_accept = pristine && TargetClean() && active < base;
         const NodeState pre = Capture();
@@ -1319,6 +1342,8 @@ struct Sim {
         if (v.conflict) ctx.probe("conflicting_duplicate_coin");
         ctx.fingerprint(mix64(mix64(v.set_fp, (uint64_t)v.reason * 131 + mut), mix64(out.ok, strhash(v.detail.substr(0, v.detail.find('@'))))));
         if (out.ok) {
+            if (v.equal_work_other_tip)
+                ctx.failf("activated-base-with-equal-work-to-fork-tip", "%s: ActivateSnapshot succeeded although the base block has exactly the chain work of the active tip (a block of a competing chain at the same height), not more", where);
             if (v.reason >= R_STREAM) ctx.failf(kReasonClass[v.reason], "%s: ActivateSnapshot succeeded", where);
             ++n_activated;
             ctx.probe(pristine ? "activated_unmutated" : "activated_equivalent_file");
@@ -1328,7 +1353,8 @@ struct Sim {
             Parse(bytes.size() > fault_at && (smode == S_EOF || smode == S_EIO) ? Bytes(bytes.begin(), bytes.begin() + fault_at) : bytes, f);
             const uint256 claimed = FromArr(f.base);
             CheckActivated(claimed, known[claimed].first == 0 ? committed : fork_committed, where);
-            BuildTarget(t_blocks >= base ? (int)ctx.knob("h0", 0) : t_blocks); // one snapshot per node: continue on a fresh target in the same situation
+            BuildTarget(t_blocks >= base ? (int)ctx.knob("h0", 0) : t_blocks);
+            ctx.probe("fresh_target_after_activation"); // one snapshot per node: continue on a fresh target in the same situation
             return;
         }
         // rejected
@@ -1350,7 +1376,7 @@ struct Sim {
         case R_NOT_AU: ctx.probe("rejected_non_assumeutxo_base"); break;
         case R_UNKNOWN_HDR: ctx.probe("rejected_unknown_base_header"); break;
         case R_INVALID_BASE: ctx.probe("rejected_invalid_base"); break;
-        case R_WORK: ctx.probe("rejected_not_more_work"); break;
+        case R_WORK: ctx.probe("rejected_not_more_work"); if (t_fork_active) ctx.probe("rejected_not_more_work_than_fork_tip"); break;
         case R_SET: ctx.probe("rejected_different_set"); break;
         }
         if (out.err.rfind("Population failed", 0) == 0) ctx.probe("rejected_after_staging_chainstate");
@@ -1368,7 +1394,7 @@ struct Sim {
             return;
         }
         int active = ActiveHeight();
-        if (active < 100 || active > t_blocks) { ctx.ev("mempool add: no mature coinbase"); return; }
+        if (active < 100 || active > t_blocks || t_fork_active) { ctx.ev("mempool add: no mature coinbase"); return; }
         int hs = 1 + (int)op.mod(1, active - 99);
         if (spent_cb.count(hs) || MinMark() <= active) { ctx.ev("mempool add: skipped"); return; }
         const CTransaction& cb = *P[hs - 1]->vtx[0];
@@ -1400,7 +1426,7 @@ struct Sim {
         case 0: h = base; break;
         case 1: h = 1 + (int)op.mod(1, std::max(1, base - 1)); break;
         case 2: h = base + 1 + (int)op.mod(1, std::max(1, extra)); break;
-        default: h = 1 + (int)op.mod(1, std::max(1, ActiveHeight())); break;
+        default: h = 1 + (int)op.mod(1, std::max(1, t_fork_active ? base : ActiveHeight())); break;
         }
         h = std::clamp(h, 1, t_hdr);
         CBlockIndex* pi = WITH_LOCK(cs_main, return T->cm().m_blockman.LookupBlockIndex(P[h - 1]->GetHash()));
@@ -1504,7 +1530,7 @@ struct Sim {
             success = snapcs->m_assumeutxo == Assumeutxo::VALIDATED;
             invalid = snapcs->m_assumeutxo == Assumeutxo::INVALID;
             bg_height = bg->m_chain.Height();
-            if (bg->m_coins_views) bg->ForceFlushStateToDisk(/*wipe_cache=*/false);
+            bg->ForceFlushStateToDisk(/*wipe_cache=*/false);
         }
         CoinSet validated;
         if (!ReadDb(*bg, validated)) SimFail("bg-db-unreadable", "");
@@ -1535,7 +1561,7 @@ struct Sim {
         default: h0 = base + (int)op.mod(1, extra + 1); break;
         }
         BuildTarget(h0);
-        ctx.evf("fresh target at height %d (headers %d, fork %d)", ActiveHeight(), t_hdr, (int)t_fork);
+        ctx.evf("fresh target at height %d (headers %d, fork %d active %d)", ActiveHeight(), t_hdr, (int)t_fork, (int)t_fork_active);
     }
 
     void Run()
@@ -1584,14 +1610,14 @@ Engine MakeEngine()
     e.run = Run;
     e.describe = Describe;
     e.chunk = 1;
-    e.quick_runs = 400;
-    e.thorough_runs = 6000;
+    e.quick_runs = 560;
+    e.thorough_runs = 9000;
     e.quick_budget_s = 50;
     e.thorough_budget_s = 900;
     e.run_timeout_s = 300;
     e.rule = "each run: a source node rebuilds a deterministic regtest chain whose block hash at the assumeutxo height is in m_assumeutxo_data (110: TestChain100Setup key/coinbase/mock clock through the real "
              "BlockAssembler path; 200: CreateBlockChain recipe), and dumps real snapshots at base-1, base, base+1; a target node (knobs: blocks already connected 0..base, headers known, a competing "
-             "header fork known, on-disk or in-memory databases, coins cache size) then receives 60-420 operations: activation attempts of one file mutation each (27 kinds: every single-field change made "
+             "header fork known or even being the target's active chain (tip below, at or above the base height), on-disk or in-memory databases, coins cache size) then receives 60-420 operations: activation attempts of one file mutation each (27 kinds: every single-field change made "
              "through the engine's own encoder, bit flips / byte sets / truncation / insertion / deletion addressed by field class or swept over every byte of one coin record or of the metadata, appended "
              "bytes, equivalent re-encodings) read through an fopencookie stream (plain, short reads, unbuffered short reads, EOF or EIO injected at a chosen offset, or a real file), interleaved with "
              "connecting more blocks, filling/emptying the mempool, invalidateblock/reconsiderblock on and around the base, fresh targets, and 0-2 background validations (unmutated snapshot, blocks "
@@ -1604,10 +1630,11 @@ Engine MakeEngine()
     e.stub_components = {"snapshot file (in-memory bytes behind fopencookie: short reads, early EOF, EIO)", "peers (headers/blocks handed over directly)", "clock (SetMockTime)", "RPC layer (loadtxoutset replaced by its two calls: metadata parse + ActivateSnapshot)"};
     e.assumptions = {"the engine's decoder of the snapshot format is correct (it is cross-checked on every run: real dumps parse, re-encode byte-identically, denote the model's UTXO(base), and that set hashes to the hard-coded commitment)",
                      "a file giving one outpoint twice with different contents, and a complete file whose end-of-file probe hits an I/O error, are 'undecided' (either outcome accepted)",
-                     "work comparison by height (all regtest blocks have equal work)",
+                     "work comparison by height (all regtest blocks have equal work); a base with exactly the work of an active tip on a competing chain is judged 'not more work' (own violation class "
+                     "activated-base-with-equal-work-to-fork-tip, a known finding: CBlockIndexWorkComparator breaks the tie by nSequenceId / pointer)",
                      "background validation on a mismatching set is reached only by corrupting the background chainstate's coins (chain parameters cannot be changed); the commitment for height 299 cannot be reproduced (functional-test chain) and is used only as a foreign base hash"};
     e.expected_probes = {"activated_unmutated", "activated_equivalent_file", "activated_through_short_reads", "rejected_different_set", "rejected_malformed", "rejected_truncated", "rejected_trailing_bytes", "rejected_count_mismatch",
-                         "rejected_stream_cut", "rejected_non_assumeutxo_base", "rejected_unknown_base_header", "rejected_invalid_base", "rejected_not_more_work", "rejected_mempool_not_empty", "rejected_with_fork_known",
+                         "rejected_stream_cut", "rejected_non_assumeutxo_base", "rejected_unknown_base_header", "rejected_invalid_base", "rejected_not_more_work", "rejected_not_more_work_than_fork_tip", "rejected_mempool_not_empty", "rejected_with_fork_known",
                          "rejected_after_staging_chainstate", "conflicting_duplicate_coin", "background_validation_success", "background_validation_refused_corrupted_set", "early_validation_call_skipped",
                          "stream_eof_injected", "stream_eio_injected", "stream_short_reads", "background_coin_corruption", "invalidateblock", "reconsiderblock", "mempool_not_empty", "target_reached_base_by_itself"};
     return e;
